@@ -22,7 +22,8 @@ M4(k) == [a \in 1..4 |-> [b \in 1..4 |->
             ELSE LET lo == Min2(a, b)  hi == Max2(a, b)
                      idx == IF k % 2 = 1 /\ a > b THEN (a * 5 + b * 3 + k) ELSE (lo * 7 + hi * 3 + k \div lo)
                  IN V4[(idx % 7) + 1]]]
-Mats4 == {M4(k) : k \in {kk \in 1..2000 : kk % Stride4 = 0}}
+\* (k and k+1: an even = symmetric and an odd = asymmetric matrix per stride)
+Mats4 == {M4(k) : k \in {kk \in 1..2000 : kk % Stride4 \in {0, 1}}}
 IsSymM(S) == \A a \in 1..Len(S) : \A b \in 1..Len(S) : S[a][b] = S[b][a]
 
 ThrA == << <<-1, 8>>, <<0, 1>>, <<1, 8>>, <<1, 4>>, <<3, 8>>, <<1, 2>>, <<5, 8>>, <<3, 4>>, <<7, 8>>, <<1, 1>> >>
